@@ -13,7 +13,7 @@ RULES = ["placement", "level", "fok", "bpe-off", "fragment", "available"]
 MINIMA = {"quick": {"rule_placement": 8000, "rule_fok": 1500, "rule_bpe-off": 800, "rule_fragment": 4000, "rule_available": 300}, "thorough": {"rule_placement": 300000}}
 ASSUMPTIONS = ["book snapshot = runner.ex ladders copied at entry of SimulatedOrder.place", "simulated_full_match runs are exempt from the level clause only"]
 WEIGHTS = [("thin", 3), ("deep", 4), ("nobpe", 3), ("fullmatch", 1), ("lines", 2), ("availprices", 2), ("hostile", 1), ("recorded", 2)]
-SCRIPT = {"n_orders": (4, 12), "p_cancel": 0.1, "p_update": 0.05, "p_replace": 0.25}
+SCRIPT = {"n_orders": (4, 12), "p_cancel": 0.1, "p_update": 0.05, "p_replace": 0.25, "p_finest": 0.12}
 
 
 def plan(tier, seed):
